@@ -2,7 +2,8 @@
 # tools/keep_seed.py <id> '<confirm json>' '<caught json: {"C01": "mismatch:global", "C04": null ...}>' [suffix]
 import json, os, shutil, sys, subprocess
 sid = sys.argv[1]; confirm = json.loads(sys.argv[2]); caught = json.loads(sys.argv[3]); suffix = sys.argv[4] if len(sys.argv) > 4 else ""
-src = f"/tmp/seed_{sid}_out"; dst = f"/verif/seeded/{sid}{suffix}"
+prefix = sys.argv[5] if len(sys.argv) > 5 else "seed"
+src = f"/tmp/{prefix}_{sid}_out"; dst = f"/verif/seeded/{sid}{suffix}"
 os.makedirs(dst, exist_ok=True)
 for f in ("patch.diff", "seeded_demo.rs", "demo.md"):
     if os.path.exists(f"{src}/{f}"): shutil.copy(f"{src}/{f}", f"{dst}/{f}")
